@@ -173,7 +173,7 @@ def _read_all(fd):
         return {"garbled": raw[:200].decode(errors="replace")}
 
 
-def audit_run(op, root, k=None, fault=None):
+def audit_run(op, root, k=None, fault=None, k2=None, fault2=None):
     """run op in a forked child with an audit hook that numbers the FS events of the call and faults event k.
 
     fault: None (record only) | "kill" | errno name.  Returns {"status", "report"}; report is None when the
@@ -188,8 +188,9 @@ def audit_run(op, root, k=None, fault=None):
             os.close(r)
             signal.alarm(CHILD_ALARM)
             os.chdir("/")
-            st = {"on": False, "n": 0, "events": [], "delivered": False, "other": 0}
+            st = {"on": False, "n": 0, "events": [], "delivered": False, "delivered2": False, "other": 0}
             err = getattr(_errno, fault) if fault not in (None, "kill") else None
+            err2 = getattr(_errno, fault2) if fault2 not in (None, "kill") else None
 
             def hook(event, args):
                 if not st["on"]:
@@ -206,6 +207,12 @@ def audit_run(op, root, k=None, fault=None):
                     if fault == "kill":
                         os._exit(137)
                     raise OSError(err, os.strerror(err) + " (injected)")
+                if k2 is not None and st["n"] == k2 and not st["delivered2"]:
+                    # second fault of a two-fault sequence
+                    st["delivered2"] = True
+                    if fault2 == "kill":
+                        os._exit(137)
+                    raise OSError(err2, os.strerror(err2) + " (injected, second)")
 
             sys.addaudithook(hook)
             rep = {"returned": False, "exc": None}
@@ -217,7 +224,7 @@ def audit_run(op, root, k=None, fault=None):
             except BaseException as e:  # noqa: BLE001
                 st["on"] = False
                 rep["exc"] = _describe_exc(e)
-            rep.update(events=st["events"], delivered=st["delivered"], outside=st["other"])
+            rep.update(events=st["events"], delivered=st["delivered"], delivered2=st["delivered2"], outside=st["other"])
             _send(w, rep)
             code = 0
         except BaseException:  # noqa: BLE001
@@ -323,8 +330,8 @@ def strace_run(op, root, inject=None, tracefile=None):
     os.read(rdy_r, 1)
     os.close(rdy_r)
     args = ["strace", "-p", str(pid), "-o", tracefile, "-s", "64", "-e", "trace=" + ",".join("?" + c for c in SYSCALLS + SENTINEL_CALLS)]
-    if inject:
-        args += ["-e", "inject=" + inject]
+    for spec in [inject] if isinstance(inject, str) else (inject or []):
+        args += ["-e", "inject=" + spec]
     st = subprocess.Popen(args, stdout=subprocess.DEVNULL, stderr=subprocess.PIPE)
     # strace prints "Process N attached" once it has seized AND interrupted the tracee; the child is blocked in
     # read(), so from then on it cannot execute a system call unobserved.  (TracerPid alone flips at the seize.)
@@ -388,7 +395,7 @@ def _fresh(base, op):
     return d
 
 
-def enumerate_audit(op, base, faults, blobs, max_boundaries=400, only=None):
+def enumerate_audit(op, base, faults, blobs, max_boundaries=400, only=None, two_fault=None):
     out = {"injector": "audit", "runs": []}
     d = _fresh(base, op)
     before = snapshot(d, blobs)
@@ -413,6 +420,128 @@ def enumerate_audit(op, base, faults, blobs, max_boundaries=400, only=None):
                 {"k": k, "fault": fault, "status": res["status"], "report": _slim(res["report"]), "after": snapshot(d, blobs)}
             )
             shutil.rmtree(d, ignore_errors=True)
+    if two_fault and not only:
+        out["two_fault"] = two_fault_audit(op, base, rep["events"], two_fault, faults, blobs)
+    return out
+
+
+def audit_commit(events, root, dest):
+    """1-based number of the last event that renames / links / moves something onto the destination"""
+    dpath = os.path.join(root, dest)
+    c = None
+    for i, ev in enumerate(events):
+        if ev[0] in ("os.rename", "os.link", "shutil.move") and len(ev) > 2 and ev[2] in (dpath, "<DIR>/" + dest):
+            c = i + 1
+    return c
+
+
+def strace_commit(calls, root, dest):
+    """0-based position of the last rename*/link* call whose target is the destination"""
+    c = None
+    for i, call in enumerate(calls):
+        if call[0] in ("rename", "renameat", "renameat2", "link", "linkat"):
+            paths = _paths(call[1])
+            if paths and paths[-1] in (os.path.join(root, dest), "<DIR>/" + dest):
+                c = i
+    return c
+
+
+def two_fault_audit(op, base, clean_events, first_errnos, faults, blobs):
+    """first fault: OSError at the commit boundary; second fault: at every boundary that follows in *that* run"""
+    out = []
+    c = audit_commit(clean_events, "<DIR>", op.dest)
+    if c is None:
+        return out
+    for e1 in first_errnos:
+        d = _fresh(base, op)
+        rec = audit_run(op, d, k=c, fault=e1)
+        rep = rec["report"]
+        block = {"first": [c, e1], "record": {"status": rec["status"], "report": rep, "after": snapshot(d, blobs)}, "runs": []}
+        if rep and rep.get("events"):
+            rep["events"] = [[a.replace(d, "<DIR>") if isinstance(a, str) else a for a in ev] for ev in rep["events"]]
+        shutil.rmtree(d, ignore_errors=True)
+        out.append(block)
+        if not rep or not rep.get("delivered"):
+            continue
+        n1 = len(rep["events"])
+        block["boundaries"] = n1 - c
+        for k2 in range(c + 1, n1 + 1):
+            for f2 in faults:
+                d = _fresh(base, op)
+                res = audit_run(op, d, k=c, fault=e1, k2=k2, fault2=f2)
+                block["runs"].append({"k2": k2, "fault2": f2, "status": res["status"], "report": _slim(res["report"]), "after": snapshot(d, blobs)})
+                shutil.rmtree(d, ignore_errors=True)
+    return out
+
+
+def two_fault_strace(op, base, clean_calls, first_errnos, faults, blobs, tracefile):
+    out = []
+    c = strace_commit(clean_calls, "<DIR>", op.dest)
+    if c is None:
+        return out
+    cname = clean_calls[c][0]
+    cnth = sum(1 for x in clean_calls[: c + 1] if x[0] == cname)
+    for e1 in first_errnos:
+        spec1 = f"{cname}:error={e1}:when={cnth}"
+        rec = inner1 = None
+        for _attempt in range(3):
+            d = _fresh(base, op)
+            rec = strace_run(op, d, inject=spec1, tracefile=tracefile)
+            if rec.get("attach_failed") is None:
+                inner1, early = bracketed(rec["calls"])
+                inj = [i for i, c2 in enumerate(inner1 or []) if "(INJECTED)" in c2[3]]
+                if inner1 is not None and not early and inj == [c]:
+                    break
+            inner1 = None
+            shutil.rmtree(d, ignore_errors=True)
+        block = {"first": [c + 1, e1], "runs": []}
+        out.append(block)
+        if inner1 is None:
+            block["record_failed"] = True
+            continue
+        block["record"] = {
+            "status": rec["status"],
+            "report": rec["report"],
+            "after": snapshot(d, blobs),
+            "calls": [[x[0], x[1].replace(d, "<DIR>"), x[2]] for x in inner1],
+        }
+        shutil.rmtree(d, ignore_errors=True)
+        block["boundaries"] = len(inner1) - (c + 1)
+        seen = {}
+        for pos, call in enumerate(inner1):
+            name = call[0]
+            seen[name] = seen.get(name, 0) + 1
+            if pos <= c:
+                continue
+            for f2 in faults:
+                if name == cname:
+                    # one strace expression per system call name: cannot fault the same call twice differently
+                    block["runs"].append({"pos2": pos, "syscall": name, "fault2": f2, "skipped": "same-syscall-as-first-fault"})
+                    continue
+                spec2 = f"{name}:signal=KILL:when={seen[name]}" if f2 == "kill" else f"{name}:error={f2}:when={seen[name]}"
+                run = None
+                for _attempt in range(3):
+                    d = _fresh(base, op)
+                    res = strace_run(op, d, inject=[spec1, spec2], tracefile=tracefile)
+                    run = {"pos2": pos, "syscall": name, "nth": seen[name], "fault2": f2, "status": res["status"], "report": res["report"], "attempts": _attempt + 1}
+                    if res.get("attach_failed") is not None:
+                        run["attach_failed"] = res["attach_failed"]
+                        shutil.rmtree(d, ignore_errors=True)
+                        continue
+                    got, early = bracketed(res["calls"])
+                    run["injected_at"] = [i for i, c2 in enumerate(got or []) if "(INJECTED)" in c2[3]]
+                    run["killed"] = res["killed"]
+                    run["prefix_same"] = got is not None and [c2[0] for c2 in got[:pos]] == [c2[0] for c2 in inner1[:pos]]
+                    want = [c] if f2 == "kill" else [c, pos]
+                    consistent = run["prefix_same"] and not early and run["injected_at"] == want and (run["killed"] or f2 != "kill")
+                    run["consistent"] = bool(consistent)
+                    if consistent or _attempt == 2:
+                        break
+                    shutil.rmtree(d, ignore_errors=True)
+                if run.get("attach_failed") is None:
+                    run["after"] = snapshot(d, blobs)
+                    shutil.rmtree(d, ignore_errors=True)
+                block["runs"].append(run)
     return out
 
 
@@ -427,7 +556,7 @@ def _slim(rep):
     return rep
 
 
-def enumerate_strace(op, base, faults, blobs, max_boundaries=400, only=None):
+def enumerate_strace(op, base, faults, blobs, max_boundaries=400, only=None, two_fault=None):
     out = {"injector": "strace", "runs": []}
     tracefile = os.path.join(base, "trace.out")
     d = _fresh(base, op)
@@ -485,6 +614,8 @@ def enumerate_strace(op, base, faults, blobs, max_boundaries=400, only=None):
             run["after"] = snapshot(d, blobs)
             out["runs"].append(run)
             shutil.rmtree(d, ignore_errors=True)
+    if two_fault and not only:
+        out["two_fault"] = two_fault_strace(op, base, out["clean"]["calls"], two_fault, faults, blobs, tracefile)
     try:
         os.remove(tracefile)
     except OSError:
@@ -524,9 +655,9 @@ def main(argv):
                 shutil.rmtree(d, ignore_errors=True)
             inj = desc.get("injector", "audit")
             if inj == "audit":
-                r = enumerate_audit(op, base, desc["faults"], blobs, only=desc.get("only"))
+                r = enumerate_audit(op, base, desc["faults"], blobs, only=desc.get("only"), two_fault=desc.get("two_fault"))
             elif inj == "strace":
-                r = enumerate_strace(op, base, desc["faults"], blobs, only=desc.get("only"))
+                r = enumerate_strace(op, base, desc["faults"], blobs, only=desc.get("only"), two_fault=desc.get("two_fault"))
             else:
                 r = plain_run(op, base, blobs)
             r["desc"] = desc
